@@ -6,9 +6,8 @@
   Numbers live in an arbitrary carrier `R` (the driver runs `R = Rat`; the theorems of
   `Props/C18.lean` are stated for every commutative ring and therefore cover the very definitions
   that are executed).  A vector is a function `Nat → R` of which the first `n` entries are read, a
-  square matrix a function `Nat → Nat → R`; every computed time level is tabulated (`force`) so
-  that execution is linear in the number of steps (`Proofs/C18.force_apply`: tabulation does not
-  change the entries below `n`).
+  square matrix a function `Nat → Nat → R`; every computed time level is stored as an array of
+  length `n` (`tab`, read back with `rd`; `Proofs/C18.rd_tab`: the entries below `n` are unchanged).
 
   The model transcribes the code *including its oddities*:
   * `method` is validated with `.lower()` but stored and compared verbatim, so `'Forward_Euler'`
@@ -60,12 +59,13 @@ def vecMul (m : Nat) (d : Vec R) (J : Mat R) : Vec R := fun j => sumTo m fun i =
 /-- `np.eye` -/
 def eye : Mat R := fun i j => if i = j then 1 else 0
 
-/-- tabulate the first `n` entries of a vector once (zero outside) -/
-def force (n : Nat) (v : Vec R) : Vec R :=
-  let a : Array R := Array.ofFn (n := n) fun k => v k.val
-  fun i => match a[i]? with
-    | some x => x
-    | none => 0
+/-- tabulate the first `n` entries of a vector (a stored time level is an array, as in the code) -/
+def tab (n : Nat) (v : Vec R) : Array R := Array.ofFn (n := n) fun k => v k.val
+
+/-- read an array as a vector (zero outside) -/
+def rd (a : Array R) : Vec R := fun i => match a[i]? with
+  | some x => x
+  | none => 0
 
 end alg
 
@@ -132,11 +132,11 @@ section time
 variable {R : Type} [Zero R] [One R] [Add R] [Sub R] [Mul R]
 
 /-- one forward-Euler step as coded: `(dt*diff_op + np.eye(n)) @ u_pre + dt*rhs` -/
-def fwdStep (n : Nat) (dt : R) (f : Form R) (u : Vec R) : Vec R :=
-  force n fun i => (sumTo n fun j => (dt * f.op i j + eye i j) * u j) + dt * f.src i
+def fwdStep (n : Nat) (dt : R) (f : Form R) (u : Array R) : Array R :=
+  tab n fun i => (sumTo n fun j => (dt * f.op i j + eye i j) * rd u j) + dt * f.src i
 
 /-- the forward loop: `t` is the time of the level `u`; the form is assembled at `t`, `dt = t' - t` -/
-def fwdLevels (n : Nat) (form : R → Form R) : R → Vec R → List R → List (Vec R)
+def fwdLevels (n : Nat) (form : R → Form R) : R → Array R → List R → List (Array R)
   | _, _, [] => []
   | t, u, t' :: rest =>
     let u' := fwdStep n (t' - t) (form t) u
@@ -151,14 +151,14 @@ def bwdRhs (dt : R) (f : Form R) (u : Vec R) : Vec R := fun i => u i + dt * f.sr
 /-- the backward loop: the form is assembled at the *new* time `t'`, `dt = t' - t`; every step goes
     through `_solve_linear_system`; returns the new levels with the `info` of each step -/
 def bwdLevels {I : Type} (n : Nat) (form : R → Form R) (solver : Mat R → Vec R → SolverRet (Vec R) I) :
-    R → Vec R → List R → Except Err (List (Vec R × Option (List I)))
+    R → Array R → List R → Except Err (List (Array R × Option (List I)))
   | _, _, [] => .ok []
   | t, u, t' :: rest =>
     let f := form t'
-    match unpack (solver (bwdMat (t' - t) f) (bwdRhs (t' - t) f u)) with
+    match unpack (solver (bwdMat (t' - t) f) (bwdRhs (t' - t) f (rd u))) with
     | .error e => .error e
     | .ok (x, info) =>
-      let u' := force n x
+      let u' := tab n x
       match bwdLevels n form solver t' u' rest with
       | .error e => .error e
       | .ok tail => .ok ((u', info) :: tail)
@@ -168,11 +168,11 @@ def bwdLevels {I : Type} (n : Nat) (form : R → Form R) (solver : Mat R → Vec
     third component of the form at `time_steps[0]`. -/
 def solveTime {I : Type} (n : Nat) (m : Method) (form : R → Form R)
     (solver : Mat R → Vec R → SolverRet (Vec R) I) (ts : List R) :
-    Except Err (List (Vec R) × Option (List I)) :=
+    Except Err (List (Array R) × Option (List I)) :=
   match ts with
   | [] => .error .indexError
   | t0 :: rest =>
-    let u0 := force n (form t0).ic
+    let u0 := tab n (form t0).ic
     match m with
     | .forward => .ok (u0 :: fwdLevels n form t0 u0 rest, none)
     | .backward =>
@@ -314,15 +314,15 @@ end arr
 /-- the constructor's handling of `time_obs` -/
 inductive TimeObsArg (R : Type)
   | noneVal
-  | str (s : String)
+  | str (lowered : String)        -- a string argument, given by its `.lower()`
   | explicit (ts : List R)
 
 /-- `self._time_obs` (`ValueError` for `None` and for strings other than final/all, any case) -/
 def resolveTimeObs {R : Type} (steps : List R) : TimeObsArg R → Except Err (List R)
   | .noneVal => .error .valueError
   | .str s =>
-    if s.toLower = "final" then .ok (steps.drop (steps.length - 1))   -- `time_steps[-1:]`
-    else if s.toLower = "all" then .ok steps
+    if s = "final" then .ok (steps.drop (steps.length - 1))   -- `time_steps[-1:]`
+    else if s = "all" then .ok steps
     else .error .valueError
   | .explicit l => .ok l
 
